@@ -43,9 +43,11 @@ def correspondence(ctx):
         c, kind, eps, U = draw(ctx.rng, i)
         for mn, m, k in _mods():
             B = m.epsilon_to_b(eps, c)
-            cases.append({'fn': '%s.epsilon_to_b' % mn, 'args': eps + c, 'py': (lambda m=m, eps=eps, c=c: m.epsilon_to_b(eps, c)), 'rtol': 1e-9, 'atol': 1e-12})
+            # absolute tolerances are relative to the size of B (off-diagonal entries of B arise by cancellation between entries of that size)
+            sB = float(np.abs(B).max())
+            cases.append({'fn': '%s.epsilon_to_b' % mn, 'args': eps + c, 'py': (lambda m=m, eps=eps, c=c: m.epsilon_to_b(eps, c)), 'rtol': 1e-9, 'atol': 1e-12, 'scale': sB})
             cases.append({'fn': '%s.b_to_epsilon' % mn, 'args': list(B.ravel()) + c, 'py': (lambda m=m, B=B, c=c: m.b_to_epsilon(B, c)), 'rtol': 1e-8, 'atol': 1e-11})
-            cases.append({'fn': '%s.epsilon_to_b_old' % mn, 'args': eps + c, 'py': (lambda m=m, eps=eps, c=c: m.epsilon_to_b_old(eps, c)), 'rtol': 1e-8, 'atol': 1e-11})
+            cases.append({'fn': '%s.epsilon_to_b_old' % mn, 'args': eps + c, 'py': (lambda m=m, eps=eps, c=c: m.epsilon_to_b_old(eps, c)), 'rtol': 1e-8, 'atol': 1e-11, 'scale': sB})
             cases.append({'fn': '%s.b_to_epsilon_old' % mn, 'args': list(B.ravel()) + c, 'py': (lambda m=m, B=B, c=c: m.b_to_epsilon_old(B, c)), 'rtol': 1e-7, 'atol': 1e-10})
             ubi = np.linalg.inv(U @ B) * k
             cases.append({'fn': '%s.ubi_to_u_and_eps' % mn, 'args': list(ubi.ravel()) + c,
